@@ -82,9 +82,6 @@ func dumpTo(b *strings.Builder, x zygo.Sexp, depth int) {
 		}
 		b.WriteString(")")
 	case *zygo.SexpArray:
-		if v.Infix {
-			b.WriteString("infix")
-		}
 		b.WriteString("[")
 		for i, e := range v.Val {
 			if i > 0 {
